@@ -247,6 +247,27 @@ def bounded(ctx):
             if want2[0] != got3[0]:
                 viol.append(dict(name="one_record_two_wrappers", what="vector %s with two module objects wrapping the same record object %s: expected %r, got %r" % (
                     vk, ty, want2[:1], got3[:2]), case=dict(vector=vk, module=ty)))
+    # the shared scenarios (complete chains with every kind of annotation, spelling, rotation, identifier, history): the
+    # outcome is that of the overhang graph -- a product -- and the warning names exactly the modules left out
+    from bounded import scenarios as sn
+    for t_, spec in enumerate(sn.scenarios(ns, ctx.seed + 29, 50 if ctx.tier == "quick" else 300, ctx.tier)):
+        sc = sn.build(ns, spec)
+        evals += 1
+        got_, prod_, w_ = sc.run()
+        distinct.add(("shared", t_))
+        want_unused = [x_ for x_ in sc.supplied if x_ not in sc.mods]
+        if sc.spec["twice"]:
+            want_ = ("DuplicateModules",)      # the same object twice: see (C03) one object twice above
+        else:
+            want_ = ("product",)
+        if got_[0] != want_[0] and not (sc.spec["twice"] and got_[0] == "product"):
+            viol.append(dict(name="scenario_outcome_%s" % got_[0], what="shared scenario %d (%s): a complete chain ended with %r" % (
+                t_, {k_: v_ for k_, v_ in sc.describe().items() if k_ not in ("records", "supplied")}, got_[:3]), case=sc.describe()))
+        elif got_[0] == "product" and not sc.spec["twice"]:
+            named = list(got_[1])
+            if sorted(map(id, named)) != sorted(map(id, want_unused)):
+                viol.append(dict(name="scenario_unused", what="shared scenario %d: the UnusedModules warning names %d modules, %d were left out of the chain" % (
+                    t_, len(named), len(want_unused)), case=sc.describe()))
     uniq = {}
     for v in viol:
         uniq.setdefault(v["name"], v)
